@@ -510,7 +510,7 @@ def run_group(ctx, g, obj):
                bounded=g['bounded'], n_user=0, n_all=0, reach=None, log='')
     t_start = time.time()
 
-    def build(entry):
+    def build(entry, noloops=False):
         a = os.path.join(ctx.work, '%s_%s.a.gb' % (entry, c))
         b = os.path.join(ctx.work, '%s_%s.b.gb' % (entry, c))
         rc, out, _ = run(['goto-cc', '--function', entry, obj, '-o', a], timeout=120)
@@ -523,9 +523,9 @@ def run_group(ctx, g, obj):
             cmd += ['--enforce-contract', g['fn']]
         for r in g['replace']:
             cmd += ['--replace-call-with-contract', r]
-        if g['loops'] or g['loopinv']:
+        if (g['loops'] or g['loopinv']) and not noloops:
             cmd += ['--apply-loop-contracts']
-        if g['loopinv']:
+        if g['loopinv'] and not noloops:
             lf, err = make_loop_file(ctx, g, a, c)
             if lf is None:
                 return None, 'loop contract file: ' + err
@@ -540,6 +540,14 @@ def run_group(ctx, g, obj):
 
     with CPU_SEM:
         b, iout = build('h_' + c)
+    fallback = False
+    if b is None and g['loopinv']:
+        # the loop structure the contracts were written for is gone (e.g. loops rewritten): fall back to a bounded
+        # run without loop contracts; only counterexamples that replay on the real code are reported from it
+        with CPU_SEM:
+            b, iout2 = build('h_' + c, noloops=True)
+        fallback = b is not None
+        res['fallback'] = 'loop contracts could not be attached (%s); bounded fallback without them' % iout[-200:].replace('\n', ' ')
     if b is None:
         res['reason'] = iout
         return res
@@ -548,7 +556,9 @@ def run_group(ctx, g, obj):
     base = ['cbmc', b, '--json-ui', '--trace', '--object-bits', '12'] + g['flags']
     if g['direct']:
         base += ['--drop-unused-functions']
-    if not g['unwind'] and not g['loops'] and not g['loopinv']:
+    if fallback:
+        base += ['--unwind', '30']
+    elif not g['unwind'] and not g['loops'] and not g['loopinv']:
         # functions under contract here are meant to be loop-free after callee replacement; a stray reachable loop
         # must not hang symex: unwind with assertions (complete when they pass; a failing one means undecided)
         base += ['--unwind', '24', '--unwinding-assertions']
@@ -642,7 +652,7 @@ def run_group(ctx, g, obj):
         if not any(m in p for p in props):
             res['reason'] = 'vacuity: no obligation matching %r generated (contract dropped?)' % m
             return res
-    if (g['loops'] or g['loopinv']) and not any('loop_invariant_step' in p or 'loop_invariant_base' in p for p in props):
+    if (g['loops'] or g['loopinv']) and not fallback and not any('loop_invariant_step' in p or 'loop_invariant_base' in p for p in props):
         res['reason'] = 'vacuity: loop contracts requested but no loop_invariant obligations generated'
         return res
     if len(user) < g['min_obl']:
@@ -656,6 +666,9 @@ def run_group(ctx, g, obj):
     if failed:
         res['status'] = 'fail'
         res['failed'] = failed
+        return res
+    if fallback:
+        res['reason'] = res.get('fallback', '') + ': no counterexample within the bound, property undecided'
         return res
     if any(r['status'] not in ('SUCCESS',) for r in res['results']):
         res['reason'] = 'unexpected statuses: %s' % sorted({r['status'] for r in res['results']})
@@ -812,6 +825,8 @@ def check_property(pid, tier, seed, verbose=False, only=None, keep=False):
             if g is None or g['id'] not in rmap:
                 continue
             rp = replay_native(ctx, g, k['witness'])
+            if rp and rp['rc'] == 1 and any(k['what_fails'] in l for l in kf_lines):
+                continue
             if rp and rp['rc'] == 1:
                 kf_lines.append('KNOWN-FINDING: property=%s %s [witness %s still fails on the real code]' % (pid, k['what_fails'], k['witness']))
             elif rp and rp['rc'] == 0:
@@ -833,6 +848,9 @@ def check_property(pid, tier, seed, verbose=False, only=None, keep=False):
                 if vals and g['ins']:
                     rp = replay_native(ctx, g, vals)
                 found = rp is not None and rp['rc'] == 1
+                if r.get('fallback') and not found:
+                    undecided.append('%s: %s; counterexample did not replay natively' % (r['id'], r['fallback']))
+                    break
                 sw = None
                 if not found:
                     sw = sweep_native(ctx, g, 3000000 if tier == 'quick' else 30000000)
